@@ -113,6 +113,8 @@ type driver struct {
 	codeOwner map[string]*checkRun // authorization code -> the callback check that carried it
 	rtReader  map[string]*checkRun // refresh token -> the check that last read it from the store
 	orphan    *checkRun
+	realTime  bool // binary mode: the virtual clock follows the wall clock
+	checkFn   func(context.Context, *envoy.CheckRequest) (*envoy.CheckResponse, error) // binary mode: Check over gRPC
 }
 
 func newDriver(out, tmp string) (*driver, error) {
@@ -137,7 +139,12 @@ func (d *driver) nowSec() int64 {
 	defer d.mu.Unlock()
 	return d.now
 }
-func (d *driver) unix(rel int64) int64 { return baseTime.Unix() + rel }
+func (d *driver) unix(rel int64) int64 {
+	if d.realTime {
+		return time.Now().Unix() + rel
+	}
+	return baseTime.Unix() + rel
+}
 // relSec is the floor of t in whole seconds on the virtual time axis.
 func (d *driver) relSec(t time.Time) int64 {
 	dd := t.Sub(baseTime)
@@ -575,7 +582,11 @@ func (d *driver) start(st *Step) *checkRun {
 				c.stack = string(debug.Stack())
 			}
 		}()
-		c.resp, c.err = e.filter.Check(context.Background(), req)
+		if d.checkFn != nil {
+			c.resp, c.err = d.checkFn(context.Background(), req)
+		} else {
+			c.resp, c.err = e.filter.Check(context.Background(), req)
+		}
 	}()
 	d.wait(c)
 	return c
